@@ -37,7 +37,7 @@ VARIABLES cid,      \* case number
           t,        \* Simulation.currentTime
           phase,    \* which numbered step of the procedure comes next
           beh,      \* agent index -> coroutine
-          mon,      \* monitor index -> coroutine
+          top,      \* the top-level scenario instance (tree of running scenarios, their monitors)
           ai,       \* position in this step's schedule / monitor list
           pend,     \* agent index -> actions chosen in this step
           ev,       \* observable event log
@@ -45,11 +45,9 @@ VARIABLES cid,      \* case number
           ntraj,    \* states in the trajectory
           flag,     \* termination flag: <<>> or <<type>>
           ending,   \* <<>> or <<type, t>>
-          elapsed,  \* steps the top-level scenario has run
-          scenOn,   \* top-level scenario still running (its monitors still exist)
           ws,       \* weights of the random picks made so far (exact rationals)
           pick      \* <<>> or <<who, index>>: a coroutine is waiting for a random pick
-vars == <<cid, t, phase, beh, mon, ai, pend, ev, nexec, ntraj, flag, ending, elapsed, scenOn, ws, pick>>
+vars == <<cid, t, phase, beh, top, ai, pend, ev, nexec, ntraj, flag, ending, ws, pick>>
 
 C == Cases[cid]
 Def(q, d) == Cases[q].defs[d]
@@ -69,6 +67,7 @@ FWhile(c, s) == [k |-> "while", c |-> c, s |-> s]
 FMod(m, start, n, u, c) == [k |-> "mod", m |-> m, start |-> start, n |-> n, u |-> u, c |-> c]
 FIdle == [k |-> "idle"]
 FShuf(items) == [k |-> "shuf", items |-> items]
+FPar(subs) == [k |-> "par", subs |-> subs]      \* `do S1, S2` in a compose block: the running sub-scenario instances
 FTry(hs) == [k |-> "try", hs |-> hs, act |-> 0, saved |-> [i \in 0..Len(hs) |-> <<>>], began |-> {}]
 
 \* a coroutine: control stack, events emitted during the current resume, signal
@@ -118,7 +117,7 @@ RECURSIVE Walk(_, _, _, _)
 Walk(q, c, p, tt) ==
   IF c.sig # "run" THEN c
   ELSE IF p > Len(c.st) THEN
-       (IF Top(c).k = "idle" THEN c
+       (IF Top(c).k \in {"idle", "par"} THEN c
         ELSE IF InvOK(q, c.st, Len(c.st), tt) THEN c ELSE Sig(c, "guardinv"))
   ELSE LET f == c.st[p] IN
        IF f.k = "mod" THEN
@@ -170,6 +169,59 @@ UnwindReturnImpl(c, k) ==
     ELSE IF f.k = "try" THEN (IF k = 1 THEN Pop(c) ELSE UnwindReturnImpl(Pop(c), k + 1))
     ELSE UnwindReturnImpl(Pop(c), k)
 
+\* ------------------------------------------------------------------ scenario instances
+(* A running (sub-)scenario: its definition, the steps it has run, its compose coroutine  *)
+(* (signal "done" when it has no compose block), its monitors.  Sub-scenarios invoked by   *)
+(* `do S1, S2` live in a "par" frame on top of the invoking compose coroutine.              *)
+Sdef(q, s) == Cases[q].sdefs[s]
+NewMon(q, d) == NewCor(<<FBeh(d), FSeq(Def(q, d).body)>>)
+NewInst(q, s) ==
+  [s |-> s, el |-> 0, on |-> TRUE,
+   cor |-> IF Sdef(q, s).hascompose THEN NewCor(<<FSeq(Sdef(q, s).compose)>>) ELSE Sig(NewCor(<<>>), "done"),
+   mons |-> [i \in 1..Len(Sdef(q, s).monitors) |-> NewMon(q, Sdef(q, s).monitors[i])]]
+StopInst(I) == [I EXCEPT !.on = FALSE, !.mons = <<>>, !.cor = Sig(NewCor(<<>>), "done")]
+SubsOf(I) == IF I.cor.st # <<>> /\ Top(I.cor).k = "par" THEN Top(I.cor).subs ELSE <<>>
+SetSubs(I, subs) == [I EXCEPT !.cor = SetTop(I.cor, [Top(I.cor) EXCEPT !.subs = subs])]
+
+\* invoking sub-scenarios: each is prepared (preconditions, then its setup block) and started, in order
+RECURSIVE SubGuardsOK(_, _, _)
+SubGuardsOK(q, ss, tt) == ss = <<>> \/ (AllTrue(q, Sdef(q, Head(ss)).pre, tt) /\ SubGuardsOK(q, Tail(ss), tt))
+StartSubs(q, c, ss, tt) ==
+  IF SubGuardsOK(q, ss, tt) THEN Push(c, FPar([i \in 1..Len(ss) |-> NewInst(q, ss[i])]))
+  ELSE Sig(c, "guardpre")
+
+RECURSIVE Micro(_, _, _), Run(_, _, _), ScenStep(_, _, _), StepSubs(_, _, _, _)
+
+\* one time step of a scenario instance (step 1 of the procedure, items a-e):
+\* time limit; compose block for one step; terminate-when conditions
+ScenStep(q, I, tt) ==
+  LET d == Sdef(q, I.s) IN
+  IF d.termAfter # <<>> /\ LimitReached(q, I.el, d.termAfter[1], d.termAfter[2])
+  THEN [inst |-> StopInst(I), out |-> <<>>, sig |-> "stop"]
+  ELSE LET I1 == [I EXCEPT !.el = I.el + 1]
+           c == IF d.hascompose
+                THEN (IF I1.cor.sig = "yield" THEN Run(q, Walk(q, [I1.cor EXCEPT !.out = <<>>, !.sig = "run", !.acts = <<>>], 1, tt), tt)
+                      ELSE Run(q, [I1.cor EXCEPT !.out = <<>>, !.sig = "run", !.acts = <<>>], tt))
+                ELSE I1.cor
+           I2 == [I1 EXCEPT !.cor = c]
+           out == IF d.hascompose THEN c.out ELSE <<>>
+       IN IF d.hascompose /\ c.sig \in {"reject", "guardpre", "guardinv"} THEN [inst |-> I2, out |-> out, sig |-> c.sig]
+          ELSE IF d.hascompose /\ c.sig = "termsim" THEN [inst |-> StopInst(I2), out |-> out, sig |-> "termsim"]
+          ELSE IF d.hascompose /\ c.sig \in {"terminate", "done"} THEN [inst |-> StopInst(I2), out |-> out, sig |-> "stop"]
+          ELSE IF \E i \in 1..Len(d.termWhen) : Tab(q, d.termWhen[i], tt)
+               THEN [inst |-> StopInst(I2), out |-> out, sig |-> "stop"]
+               ELSE [inst |-> I2, out |-> out, sig |-> "cont"]
+
+\* step the sub-scenarios of a `do` in order; those that go on are kept
+StepSubs(q, subs, i, tt) ==
+  IF i > Len(subs) THEN [subs |-> <<>>, out |-> <<>>, sig |-> "cont"]
+  ELSE LET r == ScenStep(q, subs[i], tt) IN
+       IF r.sig \in {"termsim", "reject", "guardpre", "guardinv"}
+       THEN [subs |-> <<r.inst>> \o SubSeq(subs, i + 1, Len(subs)), out |-> r.out, sig |-> r.sig]
+       ELSE LET rest == StepSubs(q, subs, i + 1, tt) IN
+            [subs |-> (IF r.sig = "cont" THEN <<r.inst>> ELSE <<>>) \o rest.subs,
+             out |-> r.out \o rest.out, sig |-> rest.sig]
+
 \* one micro-step of a coroutine whose signal is "run"
 Micro(q, c, tt) ==
   IF c.st = <<>> THEN Sig(c, "done")
@@ -203,6 +255,11 @@ Micro(q, c, tt) ==
                        IN IF hit THEN AfterInvoke(q, c1, tt)        \* limit already reached: body never starts
                           ELSE IF isdo THEN StartBeh(q, Push(c1, m), s[2], tt)
                           ELSE Push(Push(c1, m), FIdle)
+                  [] s[1] = "sdo" -> StartSubs(q, c1, s[2], tt)
+                  [] s[1] \in {"sdofor", "sdountil"} ->
+                       LET m == IF s[1] = "sdofor" THEN FMod("for", tt, s[3], s[4], "") ELSE FMod("until", tt, 0, "steps", s[3])
+                           hit == IF s[1] = "sdofor" THEN LimitReached(q, 0, m.n, m.u) ELSE Tab(q, m.c, tt)
+                       IN IF hit THEN AfterInvoke(q, c1, tt) ELSE StartSubs(q, Push(c1, m), s[2], tt)
                   [] s[1] = "choose" ->
                        LET en == Enabled(q, s[2], tt) IN
                        IF en = <<>> THEN Sig(c1, "reject")
@@ -232,8 +289,15 @@ Micro(q, c, tt) ==
                   THEN StartBeh(q, SetTop(c, [f EXCEPT !.items = SelectSeq(f.items, LAMBDA it : it # en[1])]), en[1][1], tt)
                   ELSE [c EXCEPT !.sig = "pick", !.opts = en, !.pk = "items"]
   [] f.k = "try" -> Pop(c)    \* (not reached: blocks are dispatched from the seq case)
+  [] f.k = "par" ->   \* sub-scenarios: drop those stopped meanwhile, step the others in order
+        LET r == StepSubs(q, SelectSeq(f.subs, LAMBDA I : I.on), 1, tt)
+            c1 == [c EXCEPT !.out = c.out \o r.out]
+        IN IF r.sig # "cont" THEN Sig(SetTop(c1, [f EXCEPT !.subs = r.subs]), r.sig)
+           ELSE IF r.subs = <<>>
+                THEN (LET c2 == Pop(c1) IN
+                      IF c2.st # <<>> /\ Top(c2).k = "mod" THEN AfterInvoke(q, Pop(c2), tt) ELSE AfterInvoke(q, c2, tt))
+                ELSE [SetTop(c1, [f EXCEPT !.subs = r.subs]) EXCEPT !.sig = "yield", !.acts = <<>>]
 
-RECURSIVE Run(_, _, _)
 Run(q, c, tt) == IF c.sig # "run" THEN c ELSE Run(q, Micro(q, c, tt), tt)
 
 \* resume a suspended (or fresh) coroutine for one time step
@@ -258,15 +322,15 @@ PickWeight(c, i) == IF c.pk = "rand" THEN Rat!Of(1, c.opts[2] - c.opts[1] + 1)
 
 \* ------------------------------------------------------------------ the time step
 NA == Len(C.agents)
-NM == Len(C.monitors)
 Agents == {a \in 1..NA : C.agents[a] # 0}
+NoInst == [s |-> 0, el |-> 0, on |-> FALSE, cor |-> Sig(NewCor(<<>>), "done"), mons |-> <<>>]
 
 Init ==
   /\ cid \in 1..NC
   /\ t = 0 /\ phase = "setup" /\ ai = 0
-  /\ beh = <<>> /\ mon = <<>> /\ pend = [a \in 1..Len(Cases[cid].agents) |-> <<>>]
+  /\ beh = <<>> /\ top = NoInst /\ pend = [a \in 1..Len(Cases[cid].agents) |-> <<>>]
   /\ ev = <<>> /\ nexec = 0 /\ ntraj = 0 /\ flag = <<>> /\ ending = <<>>
-  /\ elapsed = 0 /\ scenOn = TRUE /\ ws = <<>> /\ pick = <<>>
+  /\ ws = <<>> /\ pick = <<>>
 
 End(type) == /\ ending' = <<type, t>> /\ phase' = "end"
 \* rejections: a false `require` / a deadlocked choose ("reject"), or a guard violation
@@ -274,75 +338,109 @@ End(type) == /\ ending' = <<type, t>> /\ phase' = "end"
 Rejections == {"reject", "guardpre", "guardinv"}
 EndRej(kind) == /\ ending' = <<"rejected", t, kind>> /\ phase' = "end"
 
-\* objects are created, the top-level scenario starts: behaviours (guards checked), monitors;
-\* then dynamic properties are read back once
+\* objects are created; the top-level scenario starts (its preconditions, then the behaviours of
+\* its agents with their guards, then its monitors); dynamic properties are read back once
 Setup ==
   /\ phase = "setup"
   /\ LET creates == [i \in 1..NA |-> <<"create", i>>]
+         topbad == ~AllTrue(cid, Sdef(cid, C.top).pre, 0)
          bad == \E a \in Agents : ~GuardsOK(cid, C.agents[a], 0)
-     IN /\ ev' = IF bad THEN creates ELSE Append(creates, <<"read", 0>>)
+     IN /\ ev' = IF topbad \/ bad THEN creates ELSE Append(creates, <<"read", 0>>)
         /\ beh' = [a \in 1..NA |-> IF C.agents[a] = 0 THEN Sig(NewCor(<<>>), "done")
                                    ELSE NewCor(<<FBeh(C.agents[a]), FSeq(Def(cid, C.agents[a]).body)>>)]
-        /\ mon' = [m \in 1..NM |-> NewCor(<<FBeh(C.monitors[m]), FSeq(Def(cid, C.monitors[m]).body)>>)]
-        /\ IF bad
+        /\ top' = NewInst(cid, C.top)
+        /\ IF topbad THEN EndRej("guardpre") /\ UNCHANGED ai
+           ELSE IF bad
            THEN LET a == CHOOSE x \in Agents : ~GuardsOK(cid, C.agents[x], 0) /\ \A y \in Agents : y < x => GuardsOK(cid, C.agents[y], 0)
                 IN EndRej(IF AllTrue(cid, Def(cid, C.agents[a]).pre, 0) THEN "guardinv" ELSE "guardpre") /\ UNCHANGED ai
            ELSE phase' = "scenario" /\ ending' = ending /\ ai' = 0
   /\ pend' = [a \in 1..NA |-> <<>>]
-  /\ UNCHANGED <<cid, t, nexec, ntraj, flag, elapsed, scenOn, ws, pick>>
+  /\ UNCHANGED <<cid, t, nexec, ntraj, flag, ws, pick>>
 
-\* step 1: the (top-level) scenario: time limit, then its terminate-when conditions
+\* step 1: the running scenarios, parents before (and around) their children
 ScenarioStep ==
   /\ phase = "scenario"
-  /\ IF ~scenOn THEN UNCHANGED <<flag, elapsed, scenOn>>
-     ELSE IF C.termAfter # <<>> /\ LimitReached(cid, elapsed, C.termAfter[1], C.termAfter[2])
-          THEN flag' = <<"scenarioComplete">> /\ scenOn' = FALSE /\ UNCHANGED elapsed
-          ELSE /\ elapsed' = elapsed + 1
-               /\ IF \E i \in 1..Len(C.termWhen) : Tab(cid, C.termWhen[i], t)
-                  THEN flag' = <<"scenarioComplete">> /\ scenOn' = FALSE
-                  ELSE UNCHANGED <<flag, scenOn>>
-  /\ phase' = "record"
-  /\ UNCHANGED <<cid, t, beh, mon, ai, pend, ev, nexec, ntraj, ending, ws, pick>>
+  /\ IF ~top.on THEN phase' = "record" /\ UNCHANGED <<top, ev, flag, ending>>
+     ELSE LET r == ScenStep(cid, top, t) IN
+          /\ top' = r.inst /\ ev' = ev \o r.out
+          /\ IF r.sig \in Rejections THEN EndRej(r.sig) /\ UNCHANGED flag
+             ELSE /\ phase' = "record" /\ ending' = ending
+                  /\ flag' = IF r.sig \in {"stop", "termsim"} THEN <<"scenarioComplete">> ELSE flag
+  /\ UNCHANGED <<cid, t, beh, ai, pend, nexec, ntraj, ws, pick>>
 
-\* step 2: record initial (at time 0) and record; one trajectory state
-RecKind(kd) == SelectSeq(C.records, LAMBDA r : r[1] = kd)
+\* step 2: record initial (at time 0) and record, a scenario's own before its sub-scenarios'; one trajectory state
+RECURSIVE RecEvents(_, _, _, _), RecEventsSeq(_, _, _, _)
+RecEvents(q, I, kd, tt) ==
+  LET rs == SelectSeq(Sdef(q, I.s).records, LAMBDA r : r[1] = kd)
+  IN [i \in 1..Len(rs) |-> <<"rec", rs[i][2], tt>>] \o RecEventsSeq(q, SubsOf(I), kd, tt)
+RecEventsSeq(q, subs, kd, tt) ==
+  IF subs = <<>> THEN <<>> ELSE RecEvents(q, Head(subs), kd, tt) \o RecEventsSeq(q, Tail(subs), kd, tt)
+TopRecs(kd) == LET rs == SelectSeq(Sdef(cid, C.top).records, LAMBDA r : r[1] = kd)
+               IN [i \in 1..Len(rs) |-> <<"rec", rs[i][2], t>>]
 Record ==
   /\ phase = "record"
-  /\ LET ri == IF t = 0 THEN [i \in 1..Len(RecKind("init")) |-> <<"rec", RecKind("init")[i][2], t>>] ELSE <<>>
-         rr == [i \in 1..Len(RecKind("rec")) |-> <<"rec", RecKind("rec")[i][2], t>>]
-     IN ev' = ev \o ri \o rr
+  /\ ev' = ev \o (IF t = 0 THEN (IF top.on THEN RecEvents(cid, top, "init", t) ELSE TopRecs("init")) ELSE <<>>)
+              \o (IF top.on THEN RecEvents(cid, top, "rec", t) ELSE TopRecs("rec"))
   /\ ntraj' = ntraj + 1
   /\ phase' = "monitors" /\ ai' = 1
-  /\ UNCHANGED <<cid, t, beh, mon, pend, nexec, flag, ending, elapsed, scenOn, ws, pick>>
+  /\ UNCHANGED <<cid, t, beh, top, pend, nexec, flag, ending, ws, pick>>
 
-\* step 3: each monitor of a running scenario, once
+(* step 3: each monitor of each running scenario once: a scenario's own monitors, then those   *)
+(* of its sub-scenarios.  require false -> rejection; terminate -> the scenario that           *)
+(* instantiated the monitor stops (after all monitors have run); terminate simulation ->       *)
+(* termination flag, the remaining monitors still run.                                          *)
+RECURSIVE RunMons(_, _, _), RunMonList(_, _, _, _), RunMonSubs(_, _, _, _)
+RunMonList(q, ms, i, tt) ==   \* -> [ms, out, termsim, endscen, rej]
+  IF i > Len(ms) THEN [ms |-> ms, out |-> <<>>, termsim |-> FALSE, endscen |-> FALSE, rej |-> ""]
+  ELSE LET c == Resume(q, ms[i], tt) IN
+       IF c.sig \in Rejections
+       THEN [ms |-> [ms EXCEPT ![i] = c], out |-> c.out, termsim |-> FALSE, endscen |-> FALSE, rej |-> c.sig]
+       ELSE LET r == RunMonList(q, [ms EXCEPT ![i] = c], i + 1, tt) IN
+            [r EXCEPT !.out = c.out \o r.out, !.termsim = r.termsim \/ c.sig = "termsim",
+                      !.endscen = r.endscen \/ c.sig = "terminate"]
+RunMonSubs(q, subs, i, tt) ==  \* -> [subs, out, termsim, rej]
+  IF i > Len(subs) THEN [subs |-> subs, out |-> <<>>, termsim |-> FALSE, rej |-> ""]
+  ELSE LET r == RunMons(q, subs[i], tt) IN
+       IF r.rej # "" THEN [subs |-> [subs EXCEPT ![i] = r.inst], out |-> r.out, termsim |-> FALSE, rej |-> r.rej]
+       ELSE LET rest == RunMonSubs(q, [subs EXCEPT ![i] = r.inst], i + 1, tt) IN
+            [rest EXCEPT !.out = r.out \o rest.out, !.termsim = rest.termsim \/ r.termsim]
+RunMons(q, I, tt) ==   \* -> [inst, out, termsim, ended, rej]
+  IF ~I.on THEN [inst |-> I, out |-> <<>>, termsim |-> FALSE, ended |-> FALSE, rej |-> ""]
+  ELSE LET a == RunMonList(q, I.mons, 1, tt)
+           I1 == [I EXCEPT !.mons = a.ms]
+       IN IF a.rej # "" THEN [inst |-> I1, out |-> a.out, termsim |-> FALSE, ended |-> FALSE, rej |-> a.rej]
+          ELSE LET b == RunMonSubs(q, SubsOf(I1), 1, tt)
+                   I2 == IF SubsOf(I1) = <<>> THEN I1 ELSE SetSubs(I1, b.subs)
+               IN IF b.rej # "" THEN [inst |-> I2, out |-> a.out \o b.out, termsim |-> FALSE, ended |-> FALSE, rej |-> b.rej]
+                  ELSE [inst |-> IF a.endscen THEN StopInst(I2) ELSE I2, out |-> a.out \o b.out,
+                        termsim |-> a.termsim \/ b.termsim, ended |-> a.endscen, rej |-> ""]
 MonitorResume ==
-  /\ phase = "monitors" /\ pick = <<>>
-  /\ IF ~scenOn \/ ai > NM
-     THEN phase' = "termination" /\ UNCHANGED <<mon, ev, flag, ending, ai, scenOn, pick>>
-     ELSE LET c == Resume(cid, mon[ai], t) IN
-          /\ mon' = [mon EXCEPT ![ai] = c]
-          /\ ev' = ev \o c.out
-          /\ CASE c.sig \in Rejections -> EndRej(c.sig) /\ UNCHANGED <<flag, ai, scenOn, pick>>
-               [] c.sig = "pick" -> pick' = <<"mon", ai>> /\ UNCHANGED <<flag, ai, scenOn, phase, ending>>
-               [] c.sig = "termsim" -> flag' = <<"terminatedByMonitor">> /\ ai' = ai + 1 /\ UNCHANGED <<phase, ending, scenOn, pick>>
-               [] c.sig = "terminate" -> flag' = <<"terminatedByMonitor">> /\ ai' = ai + 1 /\ UNCHANGED <<phase, ending, scenOn, pick>>
-               [] OTHER -> ai' = ai + 1 /\ UNCHANGED <<flag, phase, ending, scenOn, pick>>
-  /\ UNCHANGED <<cid, t, beh, pend, nexec, ntraj, elapsed, ws>>
+  /\ phase = "monitors"
+  /\ LET r == RunMons(cid, top, t) IN
+       /\ top' = r.inst /\ ev' = ev \o r.out
+       /\ IF r.rej # "" THEN EndRej(r.rej) /\ UNCHANGED flag
+          ELSE /\ phase' = "termination" /\ ending' = ending
+               /\ flag' = IF r.termsim \/ r.ended THEN <<"terminatedByMonitor">> ELSE flag
+  /\ UNCHANGED <<cid, t, beh, ai, pend, nexec, ntraj, ws, pick>>
 
-\* step 4: termination flag, terminate-simulation-when conditions, step limit
+\* step 4: termination flag, terminate-simulation-when conditions (of every running scenario), step limit
+RECURSIVE AnyTermSim(_, _, _), AnyTermSimSeq(_, _, _)
+AnyTermSim(q, I, tt) == \/ \E i \in 1..Len(Sdef(q, I.s).termSimWhen) : Tab(q, Sdef(q, I.s).termSimWhen[i], tt)
+                        \/ AnyTermSimSeq(q, SubsOf(I), tt)
+AnyTermSimSeq(q, subs, tt) == subs # <<>> /\ (AnyTermSim(q, Head(subs), tt) \/ AnyTermSimSeq(q, Tail(subs), tt))
+TopTermSim == IF top.on THEN AnyTermSim(cid, top, t)
+              ELSE \E i \in 1..Len(Sdef(cid, C.top).termSimWhen) : Tab(cid, Sdef(cid, C.top).termSimWhen[i], t)
 TerminationChecks ==
   /\ phase = "termination"
   /\ IF flag # <<>> THEN End(flag[1])
-     ELSE IF \E i \in 1..Len(C.termSimWhen) : Tab(cid, C.termSimWhen[i], t) THEN End("simulationTerminationCondition")
+     ELSE IF TopTermSim THEN End("simulationTerminationCondition")
      ELSE IF C.maxSteps > 0 /\ t >= C.maxSteps THEN End("timeLimit")
      ELSE phase' = "behaviors" /\ ending' = ending
   /\ ai' = 1
-  /\ ev' = IF flag = <<>> /\ ~(\E i \in 1..Len(C.termSimWhen) : Tab(cid, C.termSimWhen[i], t))
-              /\ ~(C.maxSteps > 0 /\ t >= C.maxSteps)
+  /\ ev' = IF flag = <<>> /\ ~TopTermSim /\ ~(C.maxSteps > 0 /\ t >= C.maxSteps)
            THEN Append(ev, <<"sched", t>>) ELSE ev
   /\ pend' = [a \in 1..NA |-> <<>>]
-  /\ UNCHANGED <<cid, t, beh, mon, nexec, ntraj, flag, elapsed, scenOn, ws, pick>>
+  /\ UNCHANGED <<cid, t, beh, top, nexec, ntraj, flag, ws, pick>>
 
 Sched == C.sched[(t % Len(C.sched)) + 1]      \* the permutation the simulator returns for this step
 
@@ -361,63 +459,56 @@ BehaviorResume ==
                     [] c.sig \in {"terminate", "termsim"} -> End("terminatedByBehavior") /\ UNCHANGED <<pend, ai, pick>>
                     [] OTHER -> /\ pend' = [pend EXCEPT ![a] = c.acts] /\ ai' = ai + 1
                                 /\ UNCHANGED <<phase, ending, pick>>
-  /\ UNCHANGED <<cid, t, mon, nexec, ntraj, flag, elapsed, scenOn, ws>>
+  /\ UNCHANGED <<cid, t, top, nexec, ntraj, flag, ws>>
 
-\* a random pick requested by a coroutine (do choose / do shuffle / run-time distribution)
+\* a random pick requested by a behaviour (do choose / do shuffle / run-time distribution)
 Pick ==
   /\ pick # <<>>
-  /\ LET c == IF pick[1] = "beh" THEN beh[pick[2]] ELSE mon[pick[2]] IN
+  /\ LET c == beh[pick[2]] IN
      \E i \in 1..PickCount(c) :
         LET c2 == AfterPick(cid, c, i, t) IN
         /\ ws' = Append(ws, PickWeight(c, i))
         /\ ev' = ev \o c2.out
-        /\ IF pick[1] = "beh"
-           THEN /\ beh' = [beh EXCEPT ![pick[2]] = c2] /\ UNCHANGED mon
-                /\ CASE c2.sig \in Rejections -> EndRej(c2.sig) /\ UNCHANGED <<pend, ai>> /\ pick' = <<>>
-                     [] c2.sig = "pick" -> UNCHANGED <<pend, ai, phase, ending, pick>>
-                     [] c2.sig \in {"terminate", "termsim"} -> End("terminatedByBehavior") /\ UNCHANGED <<pend, ai>> /\ pick' = <<>>
-                     [] OTHER -> /\ pend' = [pend EXCEPT ![pick[2]] = c2.acts] /\ ai' = ai + 1
-                                 /\ UNCHANGED <<phase, ending>> /\ pick' = <<>>
-                /\ UNCHANGED flag
-           ELSE /\ mon' = [mon EXCEPT ![pick[2]] = c2] /\ UNCHANGED <<beh, pend>>
-                /\ CASE c2.sig \in Rejections -> EndRej(c2.sig) /\ UNCHANGED <<flag, ai>> /\ pick' = <<>>
-                     [] c2.sig = "pick" -> UNCHANGED <<flag, ai, phase, ending, pick>>
-                     [] c2.sig \in {"terminate", "termsim"} -> flag' = <<"terminatedByMonitor">> /\ ai' = ai + 1 /\ UNCHANGED <<phase, ending>> /\ pick' = <<>>
-                     [] OTHER -> ai' = ai + 1 /\ UNCHANGED <<flag, phase, ending>> /\ pick' = <<>>
-  /\ UNCHANGED <<cid, t, nexec, ntraj, elapsed, scenOn>>
+        /\ beh' = [beh EXCEPT ![pick[2]] = c2]
+        /\ CASE c2.sig \in Rejections -> EndRej(c2.sig) /\ UNCHANGED <<pend, ai>> /\ pick' = <<>>
+             [] c2.sig = "pick" -> UNCHANGED <<pend, ai, phase, ending, pick>>
+             [] c2.sig \in {"terminate", "termsim"} -> End("terminatedByBehavior") /\ UNCHANGED <<pend, ai>> /\ pick' = <<>>
+             [] OTHER -> /\ pend' = [pend EXCEPT ![pick[2]] = c2.acts] /\ ai' = ai + 1
+                         /\ UNCHANGED <<phase, ending>> /\ pick' = <<>>
+  /\ UNCHANGED <<cid, t, top, nexec, ntraj, flag>>
 
 \* steps 6-9
 ExecuteActions ==
   /\ phase = "actions"
   /\ ev' = Append(ev, <<"exec", t, pend>>) /\ nexec' = nexec + 1
   /\ phase' = "simstep"
-  /\ UNCHANGED <<cid, t, beh, mon, ai, pend, ntraj, flag, ending, elapsed, scenOn, ws, pick>>
+  /\ UNCHANGED <<cid, t, beh, top, ai, pend, ntraj, flag, ending, ws, pick>>
 SimulatorStep ==
   /\ phase = "simstep"
   /\ ev' = Append(ev, <<"simstep", t>>) /\ phase' = "tick"
-  /\ UNCHANGED <<cid, t, beh, mon, ai, pend, nexec, ntraj, flag, ending, elapsed, scenOn, ws, pick>>
+  /\ UNCHANGED <<cid, t, beh, top, ai, pend, nexec, ntraj, flag, ending, ws, pick>>
 Tick ==
   /\ phase = "tick" /\ t' = t + 1 /\ phase' = "update"
-  /\ UNCHANGED <<cid, beh, mon, ai, pend, ev, nexec, ntraj, flag, ending, elapsed, scenOn, ws, pick>>
+  /\ UNCHANGED <<cid, beh, top, ai, pend, ev, nexec, ntraj, flag, ending, ws, pick>>
 UpdateObjects ==
   /\ phase = "update"
   /\ ev' = Append(ev, <<"read", t>>) /\ phase' = "scenario"
-  /\ UNCHANGED <<cid, t, beh, mon, ai, pend, nexec, ntraj, flag, ending, elapsed, scenOn, ws, pick>>
+  /\ UNCHANGED <<cid, t, beh, top, ai, pend, nexec, ntraj, flag, ending, ws, pick>>
 
 \* step 10: record final (not after a rejection)
 Finish ==
   /\ phase = "end"
-  /\ ev' = IF ending[1] = "rejected" THEN ev
-           ELSE ev \o [i \in 1..Len(RecKind("final")) |-> <<"rec", RecKind("final")[i][2], t>>]
+  /\ ev' = IF ending[1] = "rejected" THEN ev ELSE ev \o TopRecs("final")
   /\ phase' = "done"
-  /\ UNCHANGED <<cid, t, beh, mon, ai, pend, nexec, ntraj, flag, ending, elapsed, scenOn, ws, pick>>
+  /\ UNCHANGED <<cid, t, beh, top, ai, pend, nexec, ntraj, flag, ending, ws, pick>>
 
 Next == Setup \/ ScenarioStep \/ Record \/ MonitorResume \/ TerminationChecks \/ BehaviorResume
         \/ Pick \/ ExecuteActions \/ SimulatorStep \/ Tick \/ UpdateObjects \/ Finish
 Spec == Init /\ [][Next]_vars
 
 \* ------------------------------------------------------------------ properties
-PhaseSucc == {<<"setup", "scenario">>, <<"setup", "end">>, <<"scenario", "record">>, <<"record", "monitors">>,
+PhaseSucc == {<<"setup", "scenario">>, <<"setup", "end">>, <<"scenario", "record">>, <<"scenario", "end">>,
+              <<"record", "monitors">>,
               <<"monitors", "termination">>, <<"monitors", "end">>, <<"termination", "behaviors">>,
               <<"termination", "end">>, <<"behaviors", "actions">>, <<"behaviors", "end">>,
               <<"actions", "simstep">>, <<"simstep", "tick">>, <<"tick", "update">>, <<"update", "scenario">>,
@@ -425,7 +516,7 @@ PhaseSucc == {<<"setup", "scenario">>, <<"setup", "end">>, <<"scenario", "record
 \* the documented order of a time step, and nothing runs after the ending
 PhaseOrder == [][phase' # phase => <<phase, phase'>> \in PhaseSucc]_vars
 ClockOnlyInTick == [][t' # t => phase = "tick" /\ t' = t + 1]_vars
-NothingAfterEnding == [][ending # <<>> => (ending' = ending /\ beh' = beh /\ mon' = mon /\ nexec' = nexec /\ t' = t)]_vars
+NothingAfterEnding == [][ending # <<>> => (ending' = ending /\ beh' = beh /\ top' = top /\ nexec' = nexec /\ t' = t)]_vars
 \* one trajectory state per started step, one action-log entry per executed step
 OneEntryPerStep ==
   /\ t <= nexec /\ nexec <= t + 1
